@@ -33,6 +33,11 @@ pub struct Screened {
     /// pairs of parseable expressions that differ in spacing only (a cache or interner with a
     /// normalised key would conflate them)
     pub spacing_variants: Vec<(String, String)>,
+    /// dense expressions whose `normalize()`d form does not evaluate like the original on the tree being checked
+    /// (an observation outside the claimed properties, DESIGN.md section 8): whatever switches between the two
+    /// representations of a value shows on exactly these
+    #[serde(default)]
+    pub lossy_normal_exprs: Vec<String>,
 }
 
 pub struct Pools {
@@ -53,6 +58,7 @@ pub struct Pools {
     pub sun_coords: Vec<(i32, i32)>,
     pub border_pairs: Vec<((i32, i32), (i32, i32))>,
     pub spacing_variants: Vec<(String, String)>,
+    pub lossy_normal_exprs: Vec<String>,
     pub instants: Vec<i64>,
     pub data: DataFiles,
 }
@@ -83,6 +89,7 @@ const HAND_WRITTEN: &[&str] = &[
     "2020-2030/2 Mo-Fr 09:00-12:00",
     "Jun 15-Aug 31: Mo-Su 09:00-21:00",
     "Mo-Fr 07:30-19:00; Sa 08:00-13:00; Su off",
+    "Tu-Sa 12:00-14:00, 19:30-22:30; Su 12:00-14:00",
     // the same rule twice (a normalizer that deduplicates must keep the order of the survivors)
     "Mo-Fr 10:00-18:00 ; PH off ; Sa 10:00-12:00 ; PH off",
     "Mo-Sa 09:00-19:00; Su off; Sa 09:00-13:00; Su off",
@@ -119,6 +126,18 @@ const EASTER_EXPRS: &[&str] = &[
     "easter +49 days off; Mo-Fr 09:00-18:00",
     "2024 easter-2024 Dec 24 10:00-18:00",
     "Mo-Sa 09:00-19:00; easter off",
+    // other selectors whose answer depends on the year in a way of their own (each has its own branch in the
+    // date filters: a table or memo built there is keyed by the year of whoever came first)
+    "Feb 29",
+    "Feb 29 10:00-12:00",
+    "Mo-Fr 09:00-17:00; Feb 29 off",
+    "Feb 29 +1 day 10:00-12:00",
+    "Feb 28-Mar 01 10:00-12:00",
+    "Dec 31-Jan 01 off; Mo-Su 10:00-18:00",
+    "week 53 Mo-Su 10:00-12:00",
+    "week 52-01 off; Mo-Fr 09:00-17:00",
+    "Mo[5] 10:00-12:00",
+    "Jan 01 off; Dec 25-26 off; Mo-Sa 10:00-20:00",
 ];
 
 const SUN_EXPRS: &[&str] = &[
@@ -304,8 +323,22 @@ impl Pools {
                 dense_exprs.push(e.clone());
             }
         }
+        let mut lossy_normal_exprs = Vec::new();
+        for e in &dense_exprs {
+            let norm = eval::eval(&Op::Normalize(e.clone()), None, None);
+            if norm == "Err" || &norm == e {
+                continue;
+            }
+            oh_verif_rt::reset_work_budget();
+            let a = eval::eval(&Op::Iter { e: e.clone(), c: Ctx::Default, t: insts[0], n: 40 }, None, None);
+            oh_verif_rt::reset_work_budget();
+            let b = eval::eval(&Op::Iter { e: norm, c: Ctx::Default, t: insts[0], n: 40 }, None, None);
+            if a != b && !a.starts_with("PANIC") && !b.contains("work budget exceeded") {
+                lossy_normal_exprs.push(e.clone());
+            }
+        }
         let panicking_exprs: Vec<String> = excluded.iter().filter(|(_, why)| why.starts_with("sequential evaluation panics")).map(|(e, _)| e.clone()).collect();
-        Screened { exprs, holiday_exprs, easter_exprs, excluded, panicking_exprs, dense_exprs, countries, border_pairs: find_border_pairs(), spacing_variants }
+        Screened { exprs, holiday_exprs, easter_exprs, excluded, panicking_exprs, dense_exprs, countries, border_pairs: find_border_pairs(), spacing_variants, lossy_normal_exprs }
     }
 
     pub fn from_screened(s: Screened) -> Pools {
@@ -324,6 +357,7 @@ impl Pools {
             sun_coords: COORDS.iter().copied().filter(|c| c.0.abs() <= 600_000).collect(),
             border_pairs: s.border_pairs,
             spacing_variants: s.spacing_variants,
+            lossy_normal_exprs: s.lossy_normal_exprs,
             instants: instants(),
             data: DataFiles::load(),
         }
